@@ -5,7 +5,7 @@ use rand::Rng;
 use std::collections::HashMap;
 use std::io::Write;
 use text_utils::text::{clean, count_words_whitespace};
-use text_utils::tokenization::{train_bpe, MergeOps};
+use text_utils::tokenization::{train_bpe, verif_train_steps, MergeOps, VerifPairStats};
 use text_utils::unicode::{normalize, Normalization};
 use text_utils::utils::SerializeMsgPack;
 
@@ -99,7 +99,94 @@ fn oracle_greedy(words: &[(Vec<u8>, u64)], n: usize, table: &[(Vec<u8>, u32)]) -
     Ok(())
 }
 
+fn enc_stats(v: &mut Vec<u64>, st: &VerifPairStats) {
+    v.push(st.len() as u64);
+    for ((a, b), f, ws) in st {
+        enc_bytes(v, a);
+        enc_bytes(v, b);
+        v.push(*f as u64);
+        v.push(ws.len() as u64);
+        for (i, o) in ws {
+            v.push(*i as u64);
+            v.push(*o as u64);
+        }
+    }
+}
+
+/// the observation part of a `trainsteps` request: initial statistics, then per merge the pair, the statistics and
+/// the vocabulary
+fn enc_steps(v: &mut Vec<u64>, words: &[(Vec<u8>, u64)], n: usize) -> Result<(), String> {
+    let w: Vec<(Vec<u8>, usize)> = words.iter().map(|(b, c)| (b.clone(), *c as usize)).collect();
+    let (init, steps) = verif_train_steps(&w, n).map_err(|e| e.to_string())?;
+    enc_stats(v, &init);
+    v.push(steps.len() as u64);
+    for ((a, b), st, vocab) in &steps {
+        enc_bytes(v, a);
+        enc_bytes(v, b);
+        enc_stats(v, st);
+        v.push(vocab.len() as u64);
+        for word in vocab {
+            v.push(word.len() as u64);
+            for t in word {
+                enc_bytes(v, t);
+            }
+        }
+    }
+    Ok(())
+}
+
+/// recount of all adjacent pairs of a segmented corpus: (frequency, per-word occurrences)
+fn recount(vocab: &[Vec<Vec<u8>>], counts: &[u64]) -> HashMap<(Vec<u8>, Vec<u8>), (u64, HashMap<usize, usize>)> {
+    let mut f: HashMap<(Vec<u8>, Vec<u8>), (u64, HashMap<usize, usize>)> = HashMap::new();
+    for (idx, w) in vocab.iter().enumerate() {
+        for i in 1..w.len() {
+            let e = f.entry((w[i - 1].clone(), w[i].clone())).or_insert((0, HashMap::new()));
+            e.0 += counts[idx];
+            *e.1.entry(idx).or_insert(0) += 1;
+        }
+    }
+    f
+}
+
+fn exec_steps(a: &[u64]) -> Result<Outcome, String> {
+    // request: n, word counts, then the observation of the generating run (for the model); this run's steps are
+    // judged by the oracle: after every merge the incremental statistics must equal a recount of the corpus
+    let mut r = Rd::new(a);
+    let n = r.usize()?;
+    let words: Vec<(Vec<u8>, u64)> = r.list(|r| Ok((r.bytes()?, r.nat()?)))?;
+    let w: Vec<(Vec<u8>, usize)> = words.iter().map(|(b, c)| (b.clone(), *c as usize)).collect();
+    let counts: Vec<u64> = words.iter().map(|x| x.1).collect();
+    let (init, steps) = verif_train_steps(&w, n).map_err(|e| e.to_string())?;
+    let mut o = Outcome::new("accept".to_string());
+    let check = |o: &mut Outcome, st: &VerifPairStats, vocab: &[Vec<Vec<u8>>], at: &str| {
+        let want = recount(vocab, &counts);
+        for ((a, b), f, ws) in st {
+            let (wf, wws) = want.get(&(a.clone(), b.clone())).cloned().unwrap_or((0, HashMap::new()));
+            o.check(*f as u64 == wf, &format!("C19: incremental pair frequency != recount {at}"));
+            o.check(ws.iter().all(|(i, occ)| wws.get(i).copied().unwrap_or(0) == *occ) && wws.iter().all(|(i, occ)| ws.iter().any(|(j, o2)| j == i && o2 == occ)), &format!("C19: per-word occurrence counters != recount {at}"));
+        }
+        o.check(want.keys().all(|p| st.iter().any(|e| e.0 == *p)), &format!("C19: a pair that occurs has no statistics entry {at}"));
+    };
+    let vocab0: Vec<Vec<Vec<u8>>> = words.iter().map(|(b, _)| b.iter().map(|x| vec![*x]).collect()).collect();
+    check(&mut o, &init, &vocab0, "before the first merge");
+    let mut prev = vocab0;
+    for (k, ((a, b), st, vocab)) in steps.iter().enumerate() {
+        let want = recount(&prev, &counts);
+        let max = want.values().map(|x| x.0).max().unwrap_or(0);
+        o.check(max > 0 && want.get(&(a.clone(), b.clone())).map(|x| x.0) == Some(max), &format!("C19: merge {k} is not a pair of positive maximal frequency"));
+        check(&mut o, st, vocab, &format!("after merge {k}"));
+        prev = vocab.clone();
+    }
+    if steps.len() < n {
+        o.check(recount(&prev, &counts).values().all(|x| x.0 == 0), "C19: training stopped although a pair still occurs");
+    }
+    Ok(o)
+}
+
 pub fn exec(op: &str, a: &[u64]) -> Result<Outcome, String> {
+    if op == "trainsteps" {
+        return exec_steps(a);
+    }
     if op != "trainbpe" {
         return Err(format!("unknown op {op}"));
     }
@@ -185,6 +272,18 @@ pub fn run_c19(ctx: &mut Ctx) {
             Err(_) => v.push(0),
         }
         ctx.case("trainbpe", &v);
+        // the trainer's internal state after every merge (hook verif_train_steps)
+        let mut v = vec![n as u64, words.len() as u64];
+        for (w, c) in &words {
+            enc_bytes(&mut v, w);
+            v.push(*c);
+        }
+        let base = v.len();
+        if std::panic::catch_unwind(std::panic::AssertUnwindSafe(|| enc_steps(&mut v, &words, n))).map(|r| r.is_err()).unwrap_or(true) {
+            v.truncate(base);
+            v.extend([0, 0]);
+        }
+        ctx.case("trainsteps", &v);
     }
     std::fs::remove_dir_all(tmp()).ok();
 }
